@@ -153,6 +153,11 @@ func (x *Exec) valueInstr(st *State, b *ssa.BasicBlock, i int, ins ssa.Value, k 
 			// assertion to an interface the static type already satisfies: fails only for nil
 			okT = not(eq(ut, "nil"))
 		}
+		if provName(v) == "destination" && types.IsInterface(ins.AssertedType) {
+			// the destination handed to a subscribe function is the gate built by SubscribeWithContext: never nil
+			st.assume(okT)
+			return res, false
+		}
 		if v.Src == "elem" {
 			// element of a sync.Map seen through Range: its type is the map's element invariant, checked at Store sites
 			st.assume(okT)
@@ -436,6 +441,7 @@ func (x *Exec) unop(st *State, ins *ssa.UnOp) SVal {
 		okv := q(x.D.fresh("recvok", "Bool"))
 		val := x.symbolic(st, x.D.fresh("recv", "U")+"v", chanElem(ins.X.Type()))
 		x.event(st, Event{Name: "chrecv:" + provName(v), Args: []SVal{v}, Res: []SVal{val}, Pos: ins.Pos()})
+		st.NamedV["received"] = val
 		if ins.CommaOk {
 			return SVal{K: KTuple, Elems: []SVal{val, mkBool(okv)}}
 		}
